@@ -5,6 +5,7 @@
 package main
 
 import (
+	"encoding/hex"
 	"math"
 	"math/big"
 	"reflect"
@@ -38,6 +39,8 @@ type filler struct {
 	// msgPick >= 0 forces the message type chosen for sdk.Msg fields (StdTx with each Msg type)
 	msgPick int
 	mapCap  int
+	// multiMap: maps get 2..4 entries everywhere (lines that do not compare bytes with the model)
+	multiMap bool
 }
 
 var msgCtors = []func() sdk.ProtoMsg{
@@ -77,6 +80,38 @@ func (f *filler) str() string {
 		return string(rs)
 	}
 	return f.r.Pick(strAlphabet)
+}
+
+// mapKey: a key of a string-keyed map (reward delegators, per-chain multipliers).
+func (f *filler) mapKey() string {
+	// a small pool of addresses so that the same address comes up under several spellings
+	addr := make([]byte, 20)
+	seed := byte(f.r.Intn(4))
+	for i := range addr {
+		addr[i] = 0xa1 + seed*0x13 + byte(i)*0x1d
+	}
+	lower := hex.EncodeToString(addr)
+	mixed := []byte(lower)
+	for i := range mixed {
+		if i%2 == 0 && mixed[i] >= 'a' && mixed[i] <= 'f' {
+			mixed[i] -= 'a' - 'A'
+		}
+	}
+	switch f.r.Intn(10) {
+	case 0, 1, 2:
+		return lower
+	case 3, 4:
+		return strings.ToUpper(lower)
+	case 5:
+		return string(mixed)
+	case 6:
+		return lower[:39] // not an address: odd number of digits
+	case 7:
+		return strings.ToUpper(lower) + "AB" // 21 bytes: not an address
+	case 8:
+		return f.r.Pick([]string{"", "aa", "AB", "zz", "é", "0001", "0021"})
+	}
+	return hex.EncodeToString(f.r.Bytes(20))
 }
 
 func (f *filler) n() int { // element count
@@ -363,19 +398,35 @@ func (f *filler) fill(v reflect.Value, depth int) {
 		if f.mapCap > 0 && n > f.mapCap {
 			n = f.mapCap
 		}
+		if f.multiMap {
+			n = 2 + f.r.Intn(3)
+		}
 		if f.mode == modeZero || (f.mode == modeRand && n == 0 && f.r.Bool()) {
 			v.Set(reflect.Zero(t))
 			return
 		}
 		m := reflect.MakeMap(t)
+		// delegator tables are keyed by hex addresses written by the sender: lower-, upper- and
+		// mixed-case spellings, the same address twice under two spellings, and non-address keys
+		pair := ""
 		for i := 0; i < n; i++ {
 			k := reflect.New(t.Key()).Elem()
-			k.SetString(f.r.Pick([]string{"", "aa", "ab", "1f", "zz", "é"}))
-			if f.mode == modeMax {
-				k.SetString(strings.Repeat("k", i+1))
+			key := f.mapKey()
+			if i == 1 && pair != "" && f.r.Chance(2, 3) {
+				key = strings.ToUpper(pair)
+				if key == pair {
+					key = strings.ToLower(pair)
+				}
 			}
+			if i == 0 {
+				pair = key
+			}
+			k.SetString(key)
 			e := reflect.New(t.Elem()).Elem()
 			f.fill(e, depth+1)
+			if m.MapIndex(k).IsValid() && e.Kind() == reflect.Uint32 {
+				continue // keep the first share of an exact duplicate key
+			}
 			m.SetMapIndex(k, e)
 		}
 		v.Set(m)
@@ -392,7 +443,7 @@ func (f *filler) fill(v reflect.Value, depth int) {
 		f.fill(p.Elem(), depth+1)
 		v.Set(p)
 	case reflect.Struct:
-		if t.Name() == "MsgStake" || t.Name() == "MsgProtoStake" {
+		if (t.Name() == "MsgStake" || t.Name() == "MsgProtoStake") && !f.multiMap {
 			// x.nodes.MsgProtoStake has no stable_marshaler: with >= 2 map entries its bytes follow Go's
 			// random map order, so byte comparisons are only meaningful for <= 1 entry
 			old := f.mapCap
